@@ -388,6 +388,11 @@ def cstr(s):
     return cbytes([ord(c) for c in s])
 
 
+# coqc runs that parse large generated literals get the hard stack limit (a ~1 MB list literal overflows
+# coqc's default 8 MB stack); done in a shell wrapper because the shards are started from threads
+_BIG_STACK = ["sh", "-c", 'ulimit -s "$(ulimit -Hs)" 2>/dev/null; exec "$@"', "sh"]
+
+
 def coq_eval(imports, body, timeout=600, workdir=None, name="cases"):
     """Compile a throw-away .v file (outside /verif) and return (ok, stdout+stderr)."""
     d = workdir or mkscratch("coq")
@@ -397,7 +402,7 @@ def coq_eval(imports, body, timeout=600, workdir=None, name="cases"):
         for imp in imports:
             f.write("From Cffi Require Import %s.\n" % imp)
         f.write(body)
-    p = subprocess.run(["timeout", str(timeout), "coqc"] + COQ_FLAGS + ["-Q", d, "Scratch", path],
+    p = subprocess.run(_BIG_STACK + ["timeout", str(timeout), "coqc"] + COQ_FLAGS + ["-Q", d, "Scratch", path],
                        capture_output=True, text=True, cwd=d)
     if workdir is None:
         shutil.rmtree(d, ignore_errors=True)
@@ -432,7 +437,7 @@ def coq_mismatches(imports, fexpr, eqb, cases, shard=300, timeout=600, jobs=8, p
             while len(running) >= jobs:
                 _reap(running, bad, shard)
             running.append((k, subprocess.Popen(
-                ["timeout", str(timeout), "coqc"] + COQ_FLAGS + ["-Q", d, "Scratch", path],
+                _BIG_STACK + ["timeout", str(timeout), "coqc"] + COQ_FLAGS + ["-Q", d, "Scratch", path],
                 stdout=subprocess.PIPE, stderr=subprocess.STDOUT, text=True, cwd=d)))
         while running:
             e = _reap(running, bad, shard)
